@@ -2,9 +2,12 @@
     (DESIGN.md 4.1 / 5.4).  DEFINITIONS ONLY.
 
     This file covers the part of the grammar for which [parse (print ds) = Ok (elaborate ds)] is
-    PROVED (Dbc/RoundTrip.v): the kinds VERSION, BS_ (all three forms), BU_ and unknown lines, in the
-    plain layout: one definition per line, tokens separated by single spaces (none before ':' after
-    the keyword of BS_/BU_), LF line ends, every line terminated.  The remaining kinds and layouts
+    PROVED (Dbc/RoundTrip.v): the kinds VERSION, BS_ (all three forms), BU_, BO_ with its SG_ lines
+    (plain / multiplexer switch / multiplexed signals, both byte orders and signs, integer-valued
+    factor / offset / minimum / maximum with optional sign, unit string, one or more receivers) and
+    unknown lines, in the plain layout: one line per definition (per signal), tokens separated by
+    single spaces (none before ':' after the keyword of BS_/BU_, none between '-' and its number),
+    LF line ends, every line terminated.  The remaining kinds and layouts
     of section 4.1 are exercised by the generator of harness/parser/gen.go (which is the executable
     definition of the full class used by the correspondence check).
 
@@ -12,7 +15,7 @@
     computed from the printed text: the k-th definition starts at line k, column 1, at the byte
     offset given by the lengths of the preceding lines. *)
 From Coq Require Import ZArith List Bool.
-From CanVerif Require Import Dbc.Ast Dbc.Scanner Dbc.Parser.
+From CanVerif Require Import Dbc.Ast Dbc.Scanner Dbc.DecFloat Dbc.Parser.
 Import ListNotations.
 Open Scope Z_scope.
 
@@ -22,10 +25,24 @@ Inductive utok :=
 | UNum (digits : bytes)
 | UPunct (c : Z).
 
+(** multiplexing indicator of a signal: none, "M", "m<digits>" *)
+Inductive smux := MuxNone | MuxSwitch | Muxed (digits : bytes).
+
+(** a number read by ParseFloat: optional '-' directly followed by a decimal literal *)
+Record snum := { n_neg : bool; n_digits : bytes }.
+
+Record ssignal := {
+  ss_name : bytes; ss_mux : smux; ss_start : bytes; ss_size : bytes;
+  ss_big_endian : bool; ss_signed : bool;
+  ss_factor : snum; ss_offset : snum; ss_min : snum; ss_max : snum;
+  ss_unit : bytes;
+  ss_receiver : bytes; ss_receivers : list bytes }.     (* first receiver, further receivers *)
+
 Inductive sdef :=
 | SVersion (s : bytes)
 | SBitTiming (bt : option (bytes * option (bytes * bytes)))   (* [ baud [ : btr1 , btr2 ] ] *)
 | SNodes (names : list bytes)
+| SMessage (id name size tx : bytes) (signals : list ssignal)
 | SUnknown (kw : bytes) (toks : list utok).
 
 Definition print_utok (t : utok) : bytes :=
@@ -38,8 +55,28 @@ Definition print_utok (t : utok) : bytes :=
 (** [sp_list f xs] = each item preceded by one space *)
 Definition sp_list {A} (f : A -> bytes) (xs : list A) : bytes := concat (map (fun x => 32 :: f x) xs).
 
+Definition print_num (n : snum) : bytes := (if n_neg n then [45] else []) ++ n_digits n.
+
+Definition print_mux (m : smux) : bytes :=
+  match m with
+  | MuxNone => []
+  | MuxSwitch => [32; 77]
+  | Muxed ds => 32 :: 109 :: ds
+  end.
+
+(** SG_ name[ M| m<k>] : start | size @ (0|1) (+|-) ( factor , offset ) [ min | max ] "unit" r1 , r2 ... LF *)
+Definition print_signal (s : ssignal) : bytes :=
+  kw_signal ++ 32 :: ss_name s ++ print_mux (ss_mux s) ++ 32 :: 58 :: 32 :: ss_start s ++ 32 :: 124 :: 32 :: ss_size s
+  ++ 32 :: 64 :: 32 :: (if ss_big_endian s then 48 else 49) :: 32 :: (if ss_signed s then 45 else 43)
+  :: 32 :: 40 :: 32 :: print_num (ss_factor s) ++ 32 :: 44 :: 32 :: print_num (ss_offset s)
+  ++ 32 :: 41 :: 32 :: 91 :: 32 :: print_num (ss_min s) ++ 32 :: 124 :: 32 :: print_num (ss_max s)
+  ++ 32 :: 93 :: 32 :: 34 :: ss_unit s ++ 34 :: 32 :: ss_receiver s
+  ++ concat (map (fun r => 32 :: 44 :: 32 :: r) (ss_receivers s)) ++ [10].
+
 Definition print_def (d : sdef) : bytes :=
   match d with
+  | SMessage i n sz tx sigs =>
+    kw_message ++ 32 :: i ++ 32 :: n ++ 32 :: 58 :: 32 :: sz ++ 32 :: tx ++ 10 :: concat (map print_signal sigs)
   | SVersion s => kw_version ++ 32 :: 34 :: s ++ [34; 10]
   | SBitTiming None => kw_bit_timing ++ [58; 10]
   | SBitTiming (Some (b, None)) => kw_bit_timing ++ 58 :: 32 :: b ++ [10]
@@ -58,9 +95,48 @@ Fixpoint print (ds : list sdef) : bytes :=
 (** value of a decimal digit string *)
 Definition uint_value (ds : bytes) : Z := fold_left (fun acc c => acc * 10 + (c - 48)) ds 0.
 
+(** float64 bits of a number: the correctly rounded conversion of the digits ([parse_float]), sign applied *)
+Definition num_bits (n : snum) : Z :=
+  match parse_float (n_digits n) with
+  | Some b => if n_neg n then b64_neg b else b
+  | None => 0
+  end.
+
+Definition elab_signal (line off : Z) (s : ssignal) : signal_def :=
+  {| sg_pos := {| p_line := line; p_column := 1; p_offset := off |};
+     sg_name := ss_name s; sg_start := uint_value (ss_start s); sg_size := uint_value (ss_size s);
+     sg_big_endian := ss_big_endian s; sg_signed := ss_signed s;
+     sg_mux_switch := (match ss_mux s with MuxSwitch => true | _ => false end);
+     sg_multiplexed := (match ss_mux s with Muxed _ => true | _ => false end);
+     sg_mux_value := (match ss_mux s with Muxed ds => uint_value ds | _ => 0 end);
+     sg_offset := num_bits (ss_offset s); sg_factor := num_bits (ss_factor s);
+     sg_min := num_bits (ss_min s); sg_max := num_bits (ss_max s);
+     sg_unit := ss_unit s; sg_receivers := ss_receiver s :: ss_receivers s |}.
+
+Fixpoint elab_signals (line off : Z) (sigs : list ssignal) : list signal_def :=
+  match sigs with
+  | [] => []
+  | s :: t => elab_signal line off s :: elab_signals (line + 1) (off + blen (print_signal s)) t
+  end.
+
+(** the header line "BO_ id name : size tx LF" *)
+Definition message_header (i n sz tx : bytes) : bytes :=
+  kw_message ++ 32 :: i ++ 32 :: n ++ 32 :: 58 :: 32 :: sz ++ 32 :: tx ++ [10].
+
+(** number of lines a printed definition occupies *)
+Definition def_lines (d : sdef) : Z :=
+  match d with
+  | SMessage _ _ _ _ sigs => 1 + Z.of_nat (length sigs)
+  | _ => 1
+  end.
+
 Definition elab_def (line off : Z) (d : sdef) : def :=
   let p := {| p_line := line; p_column := 1; p_offset := off |} in
   match d with
+  | SMessage i n sz tx sigs =>
+    DMessage {| m_pos := p; m_id := uint_value i mod 2 ^ 32; m_name := n; m_size := uint_value sz;
+                m_transmitter := tx;
+                m_signals := elab_signals (line + 1) (off + blen (message_header i n sz tx)) sigs |}
   | SVersion s => DVersion p s
   | SBitTiming None => DBitTiming p 0 0 0
   | SBitTiming (Some (b, None)) => DBitTiming p (uint_value b) 0 0
@@ -72,7 +148,7 @@ Definition elab_def (line off : Z) (d : sdef) : def :=
 Fixpoint elab_from (line off : Z) (ds : list sdef) : list def :=
   match ds with
   | [] => []
-  | d :: t => elab_def line off d :: elab_from (line + 1) (off + blen (print_def d)) t
+  | d :: t => elab_def line off d :: elab_from (line + def_lines d) (off + blen (print_def d)) t
   end.
 
 Definition elaborate (ds : list sdef) : list def := elab_from 1 0 ds.
@@ -109,8 +185,26 @@ Definition wf_utok (t : utok) : Prop :=
   | UPunct c => upunct c
   end.
 
+(** a number: decimal literal without leading zeros that ParseFloat accepts (always, below 310 digits) *)
+Definition wf_num (n : snum) : Prop := wf_digits (n_digits n) /\ parse_float (n_digits n) <> None.
+
+Definition wf_mux (m : smux) : Prop :=
+  match m with
+  | Muxed ds => wf_digits ds /\ uint_value ds < 2 ^ 63
+  | _ => True
+  end.
+
+Definition wf_signal (s : ssignal) : Prop :=
+  ident_valid (ss_name s) = true /\ wf_mux (ss_mux s) /\ wf_uint (ss_start s) /\ wf_uint (ss_size s)
+  /\ wf_num (ss_factor s) /\ wf_num (ss_offset s) /\ wf_num (ss_min s) /\ wf_num (ss_max s)
+  /\ Forall plain_char (ss_unit s)
+  /\ ident_valid (ss_receiver s) = true /\ Forall (fun r => ident_valid r = true) (ss_receivers s).
+
 Definition wf_sdef (d : sdef) : Prop :=
   match d with
+  | SMessage i n sz tx sigs =>
+    wf_uint i /\ msgid_valid (uint_value i mod 2 ^ 32) = true /\ ident_valid n = true /\ wf_uint sz
+    /\ ident_valid tx = true /\ Forall wf_signal sigs
   | SVersion s => Forall plain_char s
   | SBitTiming None => True
   | SBitTiming (Some (b, None)) => wf_uint b
